@@ -430,6 +430,74 @@ fn main() {
         t
     });
 
+    // J3: malformed numeric strings: long numerals of several shapes with one character inserted at /
+    // substituted for every position, from an alphabet of ASCII junk and 2-, 3- and 4-byte characters; through
+    // the string-reading entries: an error, never a panic (no byte offset derived from the length may be used
+    // to slice the text), and the numerals that stay valid must keep their exact value
+    let junk: Vec<&str> = vec!["x", " ", "_", "-", ".", "e", "\u{0}", "é", "٣", "€", "😀"];
+    let mut j3: Vec<String> = vec![];
+    let j3lens: Vec<usize> = if tier.is_thorough() { (1..=200).chain([257, 300, 1000]).collect() } else { (1..=80).chain([95, 100, 128, 130, 257]).collect() };
+    for &l in j3lens.iter() {
+        let d: String = (0..l).map(|i| char::from(b'1' + (i % 9) as u8)).collect();
+        j3.push(d.clone());
+        j3.push(format!("-{}", d));
+        j3.push(format!("{}.{}", &d[..l / 2], &d[l / 2..]));
+        j3.push(format!("+{}e-7", d));
+    }
+    run.bound("J3_bases", j3.len());
+    run.bound("J3_lengths", json!(j3lens));
+    run.bound("J3_characters", json!(junk));
+    run.par("J3 malformed long numeric strings", j3.len(), |bi| {
+        let mut t = Tally::default();
+        let base: Vec<char> = j3[bi].chars().collect();
+        for pos in 0..=base.len() {
+            for m in junk.iter() {
+                for subst in [false, true] {
+                    if subst && pos == base.len() {
+                        continue;
+                    }
+                    let mut s = String::new();
+                    for (i, c) in base.iter().enumerate() {
+                        if i == pos {
+                            s.push_str(m);
+                            if subst {
+                                continue;
+                            }
+                        }
+                        s.push(*c);
+                    }
+                    if pos == base.len() {
+                        s.push_str(m);
+                    }
+                    t.states += 1;
+                    let quoted = serde_json::to_string(&s).unwrap();
+                    for e in ["BigDecimal", "json_num"] {
+                        t.transitions += 1;
+                        t.nontrivial += 1;
+                        if let Some(v) = check_doc(e, &quoted) {
+                            run.report(v);
+                        }
+                    }
+                    // the same text through a string token (any format's string deserializer)
+                    t.transitions += 1;
+                    let want = expected_parse(&s);
+                    let got = guard(|| BigDecimal::deserialize(IntoDeserializer::<::serde::de::value::Error>::into_deserializer(s.as_str())));
+                    let case = json!({"kind": "json", "entry": "BigDecimal", "doc": quoted});
+                    match got {
+                        Err(p) => run.report(Violation::new("serde string token", "panic", case, "a value or an error", p)),
+                        Ok(r) => {
+                            let g = r.ok().map(|b| dec(&b));
+                            if g != want {
+                                run.report(Violation::new("serde string token", "wrong_value", case, format!("{:?}", want.map(|d| d.show())), format!("{:?}", g.map(|d| d.show()))));
+                            }
+                        }
+                    }
+                }
+            }
+        }
+        t
+    });
+
     // T1: token streams of every integer and float width
     run.seq("T1 integer tokens", || {
         let mut t = Tally::default();
